@@ -18,6 +18,11 @@ partial def collect (r : Roll σ) (p : Params) (st : St) (acc : List Nat) : List
   | (none, _) => acc.reverse
   | (some c, st') => collect r p st' (c.length :: acc)
 
+partial def collectLit (poly mask : UInt64) (mn mx : Nat) (bs : Bytes) (acc : List Nat) : List Nat :=
+  if bs.isEmpty then acc.reverse else
+  let c := litCut poly mask mn mx 64 bs
+  if c = 0 then acc.reverse else collectLit poly mask mn mx (bs.drop c) (c :: acc)
+
 partial def collectFixed (size : Nat) (st : FSt) (acc : List Nat) : List Nat :=
   match fixedNext size st with
   | (none, _) => acc.reverse
@@ -33,6 +38,12 @@ def handle : List String → String
       let st := St.init Rustic.Gen.BUF_SIZE bs (mkSched seed.toUInt64 (seed % 50))
       "ok " ++ joinNats (collect (roll t) p st [])
     | _, _, _, _, _, _ => "bad-op"
+  | ["litwin", poly, avg, mn, mx, _seed, data] =>
+    match parseHexU64 poly, avg.toNat?, mn.toNat?, mx.toNat?, unhex data with
+    | some poly, some avg, some mn, some mx, some bs =>
+      if mn = 0 then "nonterminating" else
+      "ok " ++ joinNats (collectLit poly (avg - 1).toUInt64 mn mx bs [])
+    | _, _, _, _, _ => "bad-op"
   | ["fixed", size, _seed, data] =>
     match size.toNat?, unhex data with
     | some size, some bs => "ok " ++ joinNats (collectFixed size { rest := bs, finished := false } [])
